@@ -20,6 +20,15 @@ import LLFreeV.Proofs.LowerRecover
 namespace LLFree
 open Prog
 
+/-- panic messages of the lower allocator (`bitfield.rs`, `lower.rs`) on the get/put paths -/
+def lowerMsgs : List String :=
+  ["Failed undo toggle", "Failed undo search", "undo failed", "Undo failed", "Inc failed", "Failed partial clear",
+   "Exceeding retries", "unreachable", "range end index out of range",
+   "called `Result::unwrap()` on an `Err` value", "attempt to subtract with overflow"]
+def LowerMsg (s : String) : Prop := s ∈ lowerMsgs
+/-- every other message: the consistency checks of the upper level -/
+def UpperMsg (s : String) : Prop := s ∉ lowerMsgs
+
 structure Gh where
   ownS : Owned
   ownH : Nat → Bool
@@ -61,7 +70,7 @@ inductive TransE (g : Geom) (gh gh' : Gh) (h : Nat) (old new : Nat) : Prop where
 /-- safety of a program for a thread with ghost state `gh`; `strict = true` forbids panics -/
 def SafeL {α : Type} (strict : Bool) (g : Geom) (Post : α → Gh → Prop) : Gh → Prog α → Prop
   | gh, .ret a => Post a gh
-  | _, .panic _ => strict = false
+  | _, .panic s => strict = false ∧ UpperMsg s
   | gh, .load .row i c => ∀ v : BitVec 64, Known gh.ownS i v → SafeL strict g Post gh (c v)
   | gh, .load .huge h c => ∀ e : Nat, KnownE g gh h e → SafeL strict g Post gh (c e)
   | gh, .load .tree _ c => ∀ v, SafeL strict g Post gh (c v)
@@ -89,20 +98,20 @@ def SafeL {α : Type} (strict : Bool) (g : Geom) (Post : α → Gh → Prop) : G
       match f cur with
       | .skip => SafeL strict g Post gh (c (.error cur))
       | .set v => ∃ gh', TransRow g gh gh' i cur v ∧ SafeL strict g Post gh' (c (.ok cur))
-      | .panic _ => strict = false
+      | .panic s => strict = false ∧ UpperMsg s
   | gh, .upd .huge h f c => ∀ cur : Nat, KnownE g gh h cur →
       match f cur with
       | .skip => SafeL strict g Post gh (c (.error cur))
       | .set v => ∃ gh', TransE g gh gh' h cur v ∧ SafeL strict g Post gh' (c (.ok cur))
-      | .panic _ => strict = false
+      | .panic s => strict = false ∧ UpperMsg s
   | gh, .upd .tree _ f c => ∀ cur, match f cur with
       | .skip => SafeL strict g Post gh (c (.error cur))
       | .set _ => SafeL strict g Post gh (c (.ok cur))
-      | .panic _ => strict = false
+      | .panic s => strict = false ∧ UpperMsg s
   | gh, .upd .slot _ f c => ∀ cur, match f cur with
       | .skip => SafeL strict g Post gh (c (.error cur))
       | .set _ => SafeL strict g Post gh (c (.ok cur))
-      | .panic _ => strict = false
+      | .panic s => strict = false ∧ UpperMsg s
 
 section
 variable {α β : Type} {strict : Bool} {g : Geom}
